@@ -69,7 +69,7 @@ func main() {
 		return
 	}
 	r := evidence.New("C16", "exploration")
-	r.Rule("case = (2-4 registry hosts out of a pool incl. same name/different port, each with own credential {user+password, +refresh token, refresh only, static access token, wrong password, none}, " +
+	r.Rule("case = (2-4 registry hosts out of a pool incl. same name/different port, each with own credential {user+password, +refresh token, refresh only, static access token, wrong password, none}, Bearer registries optionally granting anonymous pull (then often with no credential configured), " +
 		"scheme {Basic, Bearer, open, unknown}, optionally redirecting (301/302/307/308, all paths or blobs, before or after authentication) to another registry or to a blob-store host with or without credentials of its own, realm on {own host, foreign token host (possibly shared), another registry's host}; one auth.Client with cache flavour {none, NewCache, NewSingleContextCache}, ForceAttemptOAuth2 on/off). " +
 		"Repository names include host:port/ prefixes and several colons (scope type ends at the first colon, actions start after the last). seq: the caller uses fresh requests, or one http.Header value for all its requests, or clones and re-addresses its previous *http.Request; history of 8-30 ops (requests GET/HEAD/POST/PUT/DELETE/ping/catalog/mount with scope hints {none, exact, oddly written, superset, extra repo, for another host, global}, token expiry, scheme change, realm move). " +
 		"conc: warm-up, then rounds of groups of identical cold requests released together with background traffic to other hosts; the token endpoint or the credential helper is held until all entered Cache.Set, then nobody / the fetch owner (once or twice in a row) / a waiter has its context ended by the harness with context.Canceled or context.DeadlineExceeded (manual contexts, no wall clock); plus cancelled-caller probes (1-3 requests whose context ends in the hook on entering Cache.Set, then a live request for the same key that must complete; refuted by goroutine dumps, not by time), shared-context rounds (6-12 concurrent requests for different repositories under ONE context whose 3/5/6 hints were appended successively, first 401s delivered together), late-join probes (L held inside the fetch, waiter W cancelled and returned, R seen inside Once.Do while the fetch is still held: one fetch and L's token are demanded), unsynchronised storms and, for the single-context cache, probes of 3-8 concurrent requests with different scopes to one host that enter the host-keyed Cache.Set together (spin barrier in the hook). " +
@@ -78,7 +78,7 @@ func main() {
 		"(conc) at least one group had >= 2 live requests and its token fetch or credential lookup was held while all of them were inside Cache.Set (for flavour none: all held at once)")
 	r.Assume("the world's transport is in-process (no sockets): it honours req.Context() and returns the context's error, which http.Client.Do wraps in *url.Error as net/http does")
 	r.Assume("NewSingleContextCache is host-keyed by documentation: scope-set equality of reused tokens is demanded for NewCache / no cache only; host, scheme and the liveness clause are demanded for it too, also when several scopes are requested from one host concurrently (mixed storms and the hook-synchronised single-context probe)")
-	r.Assume("valid credentials = every secret the client was given for the host is the one the registry / its token service accepts and suffices for the registry's scheme; anonymous access is refused by the world and not judged for liveness")
+	r.Assume("valid credentials = every secret the client was given for the host is the one the registry / its token service accepts and suffices for the registry's scheme; no credential at all (EmptyCredential) counts as valid for GET/HEAD requests to a Bearer registry whose token service grants anonymous pull, and is not judged anywhere else")
 	r.Assume("interleavings of the concurrent phases are sampled, not enumerated; coalescing of a late request depends on scheduling and is counted, never demanded")
 
 	worker.Run(r, worker.Opts{Phase: "seq", Total: r.N(6000, 150000), Batch: r.N(125, 500)})
@@ -160,6 +160,7 @@ type regSpec struct {
 	RealmKind string `json:"realm_kind"`
 	CredKind  string `json:"cred_kind"`
 	Redirect  string `json:"redirect,omitempty"`
+	Anonymous bool   `json:"anonymous_pull,omitempty"`
 	redirects bool
 	cred      auth.Credential
 	model     *authmodel.Registry
@@ -343,6 +344,15 @@ func newEnv(rng *rand.Rand, phase string, seed int64, i int, res *worker.Result)
 		default:
 			rs.CredKind = "empty"
 		}
+		// some Bearer registries grant anonymous pull; the client then often holds
+		// no credential for them (the credential function returns EmptyCredential)
+		if rng.IntN(3) == 0 {
+			m.AnonymousPull = true
+			if rng.IntN(2) == 0 {
+				rs.CredKind, rs.cred, wrong = "empty", auth.EmptyCredential, ""
+			}
+			rs.Anonymous = true
+		}
 		rs.model = m
 		e.world.AddRegistry(m)
 		if wrong != "" {
@@ -449,6 +459,21 @@ func (e *env) valid(rs *regSpec) bool {
 		case "userpass", "userpass+refresh", "refresh", "access":
 			return true
 		}
+	}
+	return false
+}
+
+// validFor: valid(rs), or no credential at all for a Bearer registry that grants
+// anonymous pull when the request needs nothing beyond pull ("EmptyCredential
+// is a valid return value" of the credential function; the registry's own
+// token service accepts it for such requests).
+func (e *env) validFor(rs *regSpec, sp *reqSpec) bool {
+	if e.valid(rs) {
+		return true
+	}
+	m := e.world.Registry(rs.Host)
+	if rs.CredKind == "empty" && m.Scheme == authmodel.SchemeBearer && m.AnonymousPull {
+		return (sp.Method == http.MethodGet || sp.Method == http.MethodHead) && sp.Path != "/v2/_catalog"
 	}
 	return false
 }
@@ -748,8 +773,12 @@ func (e *env) judge(o outcome, live bool, what string) {
 		// request is that host's business; only the transport monitor judges
 		e.count("redirected_requests", 1)
 		e.count(fmt.Sprintf("redirected_requests_ending_%d", o.status), 1)
-	} else if live && e.valid(rs) {
+	} else if live && e.validFor(rs, o.spec) {
 		e.count("liveness_judged", 1)
+		if !e.valid(rs) {
+			e.count("liveness_judged_anonymous_pull", 1)
+			what += " [no credential configured; the registry grants anonymous pull]"
+		}
 		switch {
 		case o.err != nil && (errors.Is(o.err, context.Canceled) || errors.Is(o.err, context.DeadlineExceeded)):
 			e.violate("cancelled-fetch-shared", fmt.Sprintf("%s: request to %s with valid credentials and a live context failed with another request's cancellation: %v", what, rs.Host, o.err), detail())
@@ -899,7 +928,7 @@ func runCase(phase string, i int) worker.Result {
 func (e *env) caseKey() string {
 	var parts []string
 	for _, rs := range e.regs {
-		parts = append(parts, rs.Scheme+"/"+rs.RealmKind+"/"+rs.CredKind+"/"+rs.Redirect)
+		parts = append(parts, fmt.Sprintf("%s/%s/%s/%s/%v", rs.Scheme, rs.RealmKind, rs.CredKind, rs.Redirect, rs.Anonymous))
 	}
 	return fmt.Sprintf("%s|%v|%s", e.flavour, e.force, strings.Join(parts, ","))
 }
@@ -1915,7 +1944,7 @@ func coalesceRound(e *env, rd int) (string, bool) {
 		rs := e.regs[g.reg]
 		rs.touched = true
 		rs.lastSpec = g.spec
-		if synced && live >= 2 && e.valid(rs) {
+		if synced && live >= 2 && e.validFor(rs, g.spec) {
 			ok = true
 			if e.flavour != "none" {
 				if fetchesServed == 1 {
